@@ -9,7 +9,9 @@
 (* it models what a caller may hand to a kernel:                           *)
 (*                                                                         *)
 (*   shapes    1x1 .. 5x5, 2xN / Nx2 with N a multiple of the OpenMP chunk *)
-(*             (4096), a few "big" shapes (> 16384 provisional labels)     *)
+(*             (4096), a few "big" shapes (> 16384 provisional labels),    *)
+(*             thin strips N x w and w x N (w = 3, 5, ..) whose pixel and  *)
+(*             row counts are not multiples of the thread counts           *)
 (*   contents  empty, full, checkerboards, one pixel in each corner /      *)
 (*             centre, first / last row / column, stripes, diagonal,       *)
 (*             occupied rows separated by empty rows, isolated dots        *)
@@ -18,11 +20,21 @@
 (*   params    thresholds / cuts below, at, inside, at the top of, above   *)
 (*             the data; label capacity exact / slack / zero; index        *)
 (*             classes; permutations; buffer sizes exact                   *)
+(*   threads   for the kernels with an OpenMP region (ParK, read off the   *)
+(*             `#pragma omp` lines of src/*.c): the number of threads the  *)
+(*             call runs with, nt in NT = {1, 2, 3, 7, 16, 31, 64} (0 =    *)
+(*             whatever the process has).  Relative to the trip count E of *)
+(*             the loop the threads share out (pixels, rows, list entries) *)
+(*             a choice is tagged one / gtE (more threads than elements) / *)
+(*             ndiv (E not a multiple of nt: a remainder to hand out) /    *)
+(*             div / div64 (E / nt a multiple of 64: a chunk border on a   *)
+(*             cache line) / gtrows (more threads than image rows)         *)
 (*                                                                         *)
 (* variables  pc   stage of the construction of one call descriptor        *)
-(*            d    the descriptor  [k, ns, nf, c1, c2, n, m, par, opt]     *)
-(* actions    PickKernel PickShape PickBigShape PickSize PickContent       *)
-(*            PickContent2 PickSize2 PickParam PickOption Finish           *)
+(*            d    the descriptor  [k, ns, nf, c1, c2, n, m, par, opt, nt] *)
+(* actions    PickKernel PickShape PickBigShape PickStripShape PickSize    *)
+(*            PickContent PickContent2 PickSize2 PickParam PickOption      *)
+(*            PickThreads Finish                                           *)
 (*            (one action per choice; the reachable graph is a tree whose  *)
 (*            leaves are the descriptors)                                  *)
 (* invariants TypeOK                                                       *)
@@ -32,6 +44,14 @@
 (*                 indices < m when boundscheck = 0, adr a permutation,    *)
 (*                 order sorts ar, sorted id lists, low < high, nhist >= 1,*)
 (*                 minimum image dimensions read off the C source, ...)    *)
+(*            PartitionInv  the hand-written work split of localmaxlabel   *)
+(*                 (localmaxlabel.c:215-216, lo = npx * tid / nt, hi =     *)
+(*                 npx * (tid + 1) / nt) hands every pixel 0 .. npx - 1 to *)
+(*                 exactly one thread and its products fit a C int, for    *)
+(*                 every (shape, nt) of the lattice - the reason why the   *)
+(*                 walk leaves no cell of `labels` unwritten; the binding  *)
+(*                 observes the consequence (no poison survives, result =  *)
+(*                 steepest-ascent definition = single-thread result)      *)
 (*            Emit  prints one JSON line per descriptor; descriptors with  *)
 (*                 <= 16 pixels / <= 4 entries carry the materialised      *)
 (*                 arrays (masks, labels by the independent closure        *)
